@@ -86,7 +86,7 @@ func structMut(root *tnode, at int, kind string) (*tnode, bool) {
 
 var typeNameList = []string{"Structure", "Integer", "LongInteger", "BigInteger", "Enumeration", "Boolean", "TextString", "ByteString", "DateTime", "Interval"}
 
-var lexAlternatives = []string{"", "0x", "0xZZ", "0xABC", "-1", "9223372036854775808", "1.5", "TRUE", "True", "1", "NoSuchName", "Sign||Verify", "Sign | Verify", "0x80000000", "2023-13-45T99:99:99Z", "+5", " 7", "1e3"}
+var lexAlternatives = []string{"", "0x", "0xZZ", "0xABC", "-1", "9223372036854775808", "1.5", "TRUE", "True", "1", "NoSuchName", "Sign||Verify", "Sign | Verify", "|Sign", "Sign| |Verify", " ", "0x80000000", "2023-13-45T99:99:99Z", "+5", " 7", "1e3"}
 
 // xmlDoc renders the tree; at node index `at` the mutation `mut` (if any) is applied. Returns the doc and whether the mutation applied.
 func xmlDoc(root *tnode, at int, mut string) ([]byte, bool) {
@@ -285,7 +285,10 @@ func c02TextJobs(thorough bool, emit func(codec, class string, doc []byte, targe
 		bases = append(bases, base{t, []int{0, 2}})
 	}
 	for i, a := range append(msg.StdAttributes(), msg.CustomAttributes()...) {
-		if !thorough && i%4 != 0 {
+		// quick: every fourth attribute, and every attribute whose value is a bit mask (their text forms have a reader of their own)
+		_, isUsage := a.AttributeValue.(kmip.CryptographicUsageMask)
+		_, isStorage := a.AttributeValue.(kmip.StorageStatusMask)
+		if !thorough && i%4 != 0 && !isUsage && !isStorage {
 			continue
 		}
 		a := a
